@@ -389,25 +389,28 @@ func ruleUn1(c *Ctx) {
 		tObj := c.objOf(as.Rhs[0])
 		// the variable being bound: <v>.TyVar().Name
 		vRoot := ""
+		var vRootE ast.Expr = ast.NewIdent("?")
 		if se, ok := ix.Index.(*ast.SelectorExpr); ok && se.Sel.Name == "Name" {
 			if ce, ok := se.X.(*ast.CallExpr); ok {
 				if s2, ok := ce.Fun.(*ast.SelectorExpr); ok {
 					vRoot = src(s2.X)
+					vRootE = s2.X
 				}
 			}
 		}
-		// enclosing if freeFrom(T, v.TyVar())
+		// control dependence (not syntactic nesting): freeFrom(T, v.TyVar()) holds whenever the store is reached
 		occurs := false
-		for i := len(stack) - 1; i >= 0; i-- {
-			is, ok := stack[i].(*ast.IfStmt)
-			if !ok || !(is.Body.Pos() <= as.Pos() && as.End() <= is.Body.End()) {
-				continue
+		tcx := c.fnTerms(fd)
+		tcx.defs = map[types.Object]ast.Expr{} // compare variables, not their definitions
+		known := map[string]bool{}
+		for _, pc := range g.condsAt(as) {
+			for _, ct := range conjuncts(tcx.condTerm(pc)) {
+				known[ct] = true
 			}
-			ce, ok := unparen(is.Cond).(*ast.CallExpr)
-			if !ok || c.calleeName(ce) != "types.freeFrom" || len(ce.Args) != 2 {
-				continue
-			}
-			if tObj != nil && c.objOf(ce.Args[0]) == tObj && strings.HasPrefix(src(ce.Args[1]), vRoot+".") {
+		}
+		for ct := range known {
+			op, args := splitTerm(ct)
+			if op == "types.freeFrom" && len(args) == 2 && tObj != nil && args[0] == tcx.tr(as.Rhs[0]) && strings.HasPrefix(args[1], "m:types.Type.TyVar("+tcx.tr(vRootE)+")") {
 				occurs = true
 			}
 		}
@@ -425,20 +428,42 @@ func ruleUn1(c *Ctx) {
 		default:
 			c.R.OK("types.unify", desc, as.Pos(), "under freeFrom(%s, %s.TyVar()) with %s = applySubst(..)", src(as.Rhs[0]), vRoot, src(as.Rhs[0]))
 		}
-		// UN-2: rebind test dominates the store
+		// UN-2: when the store is reached, "the variable was unbound or its binding Equals T" is known:
+		// not(and(ok, not(Equals(k, T)))) from an early return, or its De Morgan forms
 		rebind := false
-		inspectNoLit(fd.Body, func(y ast.Node) bool {
-			is, ok := y.(*ast.IfStmt)
-			if !ok || !returnsConst(c, is.Body, false) {
-				return true
+		sb := g.blockOf(as)
+		for _, at := range g.branchAtoms() {
+			// a branch whose condition involves Equals(<existing binding>, T)
+			var eq *ast.CallExpr
+			for _, ce := range c.callsTo(at.cond, "types.Equals") {
+				if len(ce.Args) == 2 && tObj != nil && mentions(c, ce, tObj) {
+					eq = ce
+				}
 			}
-			s := sx(is.Cond)
-			if strings.Contains(s, "Fun:Equals") && tObj != nil && mentions(c, is.Cond, tObj) && g.dominates(is.Cond, as) && !(is.Body.Pos() <= as.Pos() && as.End() <= is.Body.End()) {
-				// the compared binding must be a lookup of the same key
+			if eq == nil || sb < 0 {
+				continue
+			}
+			// the bad case: a binding exists (every other atom true) and it is NOT Equals to T
+			atoms := map[string]bool{tcx.tr(eq): false}
+			inspectNoLit(at.cond, func(y ast.Node) bool {
+				if id, ok := y.(*ast.Ident); ok {
+					if v, isVar := c.objOf(id).(*types.Var); isVar && typeStr(v.Type()) == "bool" {
+						atoms[tcx.tr(id)] = true
+					}
+				}
+				return true
+			})
+			bad := -1
+			switch evalTerm(tcx.tr(at.cond), atoms) {
+			case 1:
+				bad = at.onTrue
+			case 0:
+				bad = at.onFalse
+			}
+			if bad >= 0 && !g.reaches(bad, sb) && g.dominates(at.cond, as) {
 				rebind = true
 			}
-			return true
-		})
+		}
 		c.R.Check(rebind, "types.unify", "rebind test before "+desc, as.Pos(), "`if ok && !Equals(k, T) { return nil }` dominates the store", "an existing binding of the variable is overwritten without being compared: one variable can stand for two different types")
 		return true
 	})
